@@ -243,6 +243,35 @@ func Main(id, tier string, seed int64, budget time.Duration, root, out string) i
 				}))
 			}()
 		}
+		// build configurations the tree itself distinguishes (check.sh: discover_cfgs / cmd/vconfigs)
+		for _, ent := range strings.Split(os.Getenv("VERIF_CFG_LIST"), ";") {
+			f := strings.Split(ent, "|")
+			if len(f) != 4 || f[0] == "" {
+				continue
+			}
+			name, bin, env, tags := f[0], f[1], f[2], f[3]
+			vwg.Add(1)
+			go func() {
+				defer vwg.Done()
+				goTest, goTags := "", ""
+				if env != "" {
+					goTest = env + " "
+				}
+				if tags != "" {
+					goTags = "-tags " + tags + " "
+				}
+				addReported(variantPass(c, id, root, out, variantSpec{
+					key: "config_" + name, variant: "config-" + name, bin: bin,
+					what:  "quick tier of this check re-run as a binary of a build configuration the working tree distinguishes (a file the default build ignores is compiled in): " + strings.TrimSpace(env+" "+goTags),
+					label: "in the build configuration " + name,
+					mark:  "build_config", markObj: map[string]string{"name": name, "env": env, "tags": tags}, suffix: "cfg-" + name,
+					goTest: goTest, goTestTags: goTags,
+				}))
+			}()
+		}
+		if n := os.Getenv("VERIF_CFG_NOTES"); n != "" {
+			c.Set("build_configurations_not_run", n)
+		}
 		vwg.Wait()
 	}
 	if err := c.Finish(p, evPath, reported, knownHit); err != nil {
@@ -268,6 +297,8 @@ func Variant() string { return os.Getenv("VERIF_VARIANT") }
 var printMu sync.Mutex
 
 type variantSpec struct {
+	bin                          string            // the binary itself (discovered configurations), else taken from binEnv
+	markObj                      map[string]string // value of the mark when it is an object
 	key, variant, binEnv, errEnv string
 	what, label                  string
 	mark, markVal, suffix        string
@@ -279,7 +310,10 @@ type variantSpec struct {
 // it covered and what it found into this run. It returns the number of violations reported.
 // When the binary is not available the pass is skipped and the evidence says so.
 func variantPass(c *Ctx, id, root, out string, v variantSpec) int {
-	bin := os.Getenv(v.binEnv)
+	bin := v.bin
+	if bin == "" {
+		bin = os.Getenv(v.binEnv)
+	}
 	if bin == "" {
 		why := os.Getenv(v.errEnv)
 		if why == "" {
@@ -298,7 +332,7 @@ func variantPass(c *Ctx, id, root, out string, v variantSpec) int {
 	var env []string
 	for _, e := range os.Environ() {
 		// helper binaries of the main run are not handed down
-		if strings.HasPrefix(e, "VERIF_386_BIN=") || strings.HasPrefix(e, "VERIF_TAGDEBUG_BIN=") || strings.HasPrefix(e, "VERIF_DEBUG_BIN=") || strings.HasPrefix(e, "VERIF_SCHED_BIN=") || strings.HasPrefix(e, "VERIF_RACE_BIN=") || strings.HasPrefix(e, "VERIF_VARIANT=") {
+		if strings.HasPrefix(e, "VERIF_386_BIN=") || strings.HasPrefix(e, "VERIF_TAGDEBUG_BIN=") || strings.HasPrefix(e, "VERIF_DEBUG_BIN=") || strings.HasPrefix(e, "VERIF_SCHED_BIN=") || strings.HasPrefix(e, "VERIF_RACE_BIN=") || strings.HasPrefix(e, "VERIF_VARIANT=") || strings.HasPrefix(e, "VERIF_CFG_LIST=") || strings.HasPrefix(e, "VERIF_CFG_NOTES=") {
 			continue
 		}
 		env = append(env, e)
@@ -346,7 +380,11 @@ func variantPass(c *Ctx, id, root, out string, v variantSpec) int {
 			continue
 		}
 		dst := filepath.Join(out, "replays", strings.TrimSuffix(filepath.Base(f), ".json")+"-"+v.suffix+".json")
-		m[v.mark] = v.markVal
+		if v.markObj != nil {
+			m[v.mark] = v.markObj
+		} else {
+			m[v.mark] = v.markVal
+		}
 		m["how_to_replay"] = []string{
 			"/verif/check.sh replay " + dst + "   (builds the binary of that configuration)",
 			"cd /verif/harness && " + v.goTest + "VERIF_REPLAY=" + dst + " go test " + v.goTestTags + "-count=1 -run TestReplay ./replaytest/",
